@@ -728,20 +728,63 @@ func c02RtspJoin(c *fw.Ctx, k int) {
 	}
 	var subs []*ref.RtspClient
 	var joinedAt []int
+	var split []bool
 	defer func() {
 		for _, x := range subs {
 			x.Close()
 		}
 	}()
+	// a joiner's handshake is not atomic: every other joiner sends DESCRIBE/SETUP at its join position
+	// and PLAY only a few packets after the next key frame has started (the key frame passes while
+	// the session is already known to the group but not yet playing)
+	type waiting struct {
+		x      *ref.RtspClient
+		playAt int
+	}
+	var pend []waiting
+	defer func() {
+		for _, w := range pend {
+			w.x.Close()
+		}
+	}()
+	nj := 0
 	for n, o := range pk {
+		for q := 0; q < len(pend); q++ {
+			if pend[q].playAt != n {
+				continue
+			}
+			pub.Request("OPTIONS", url, nil, nil, 2*time.Second)
+			if pend[q].x.StartPlay(url, 3*time.Second) == nil {
+				subs, joinedAt, split = append(subs, pend[q].x), append(joinedAt, n), append(split, true)
+			} else {
+				pend[q].x.Close()
+			}
+			pend = append(pend[:q], pend[q+1:]...)
+			q--
+		}
 		if joinAt[n] {
 			// everything sent so far has been read by lal (a request/response round trip on the same
 			// connection is ordered behind the interleaved data)
 			pub.Request("OPTIONS", url, nil, nil, 2*time.Second)
 			if x, err := ref.DialRtsp(s.RtspAddr(), 2*time.Second); err == nil {
-				if _, err := x.Play(url, false, 3*time.Second); err == nil {
-					subs = append(subs, x)
-					joinedAt = append(joinedAt, n)
+				nj++
+				playAt := -1
+				if nj%2 == 0 {
+					for m := n + 1; m < len(pk)-12; m++ {
+						if pk[m].track == 0 && classify(pk[m].pkt).keyStart {
+							playAt = m + 1 + r.Intn(8)
+							break
+						}
+					}
+				}
+				if playAt > 0 {
+					if _, err := x.Prepare(url, false, 3*time.Second); err == nil {
+						pend = append(pend, waiting{x, playAt})
+					} else {
+						x.Close()
+					}
+				} else if _, err := x.Play(url, false, 3*time.Second); err == nil {
+					subs, joinedAt, split = append(subs, x), append(joinedAt, n), append(split, false)
 				} else {
 					x.Close()
 				}
@@ -756,6 +799,9 @@ func c02RtspJoin(c *fw.Ctx, k int) {
 	time.Sleep(150 * time.Millisecond)
 	for q, x := range subs {
 		c.Eval(1)
+		if split[q] {
+			c.Cell("rtsp-join/%s/key-frame-between-setup-and-play", vc)
+		}
 		c.Cell("rtsp-join/%s/%s", vc, map[bool]string{true: "mid-key-frame", false: "elsewhere"}[func() bool {
 			for _, m := range midKey {
 				if m == joinedAt[q] {
@@ -773,7 +819,7 @@ func c02RtspJoin(c *fw.Ctx, k int) {
 				continue
 			}
 			if !cl.keyStart {
-				c.Violate("start/first-video-not-key-start/rtsp", fmt.Sprintf("an RTSP subscriber whose PLAY completed before the publisher's packet %d received as its first video packet one that does not start a key-frame access unit (middle/last fragment=%v, payload head % x) | codec=%s max payload=%d", joinedAt[q], cl.fuMiddle, rp.Data[12:min(len(rp.Data), 16)], vc, []int{200, 400, 1200}[k%3]), nil)
+				c.Violate("start/first-video-not-key-start/rtsp", fmt.Sprintf("an RTSP subscriber (PLAY sent apart from SETUP, after a key frame had started: %v) whose PLAY completed before the publisher's packet %d received as its first video packet one that does not start a key-frame access unit (middle/last fragment=%v, payload head % x) | codec=%s max payload=%d", split[q], joinedAt[q], cl.fuMiddle, rp.Data[12:min(len(rp.Data), 16)], vc, []int{200, 400, 1200}[k%3]), nil)
 				return
 			}
 			break
